@@ -43,6 +43,7 @@ type workerOut struct {
 	ViolCount   map[string]int64  `json:"viol_count"`
 	Samples     []any             `json:"samples"`
 	TraceHash   map[string]string `json:"trace_hash"`
+	KnownHits   map[string]int64  `json:"known_hits"`
 	Completed   bool              `json:"completed"`
 }
 
@@ -125,7 +126,7 @@ func runChunk(id int, from, to uint64, trace bool) chunkResult {
 	out := filepath.Join(workDir, fmt.Sprintf("out-%d.json", id))
 	os.Remove(out)
 	os.Remove(out + ".sigs")
-	args := []string{"-prop", propID, "-tier", tier, "-seed", fmt.Sprint(seed), "-from", fmt.Sprint(from), "-to", fmt.Sprint(to), "-status", status, "-out", out, "-watchdog", fmt.Sprint(wdSecs)}
+	args := []string{"-prop", propID, "-tier", tier, "-seed", fmt.Sprint(seed), "-from", fmt.Sprint(from), "-to", fmt.Sprint(to), "-status", status, "-out", out, "-watchdog", fmt.Sprint(wdSecs), "-known", filepath.Join(verifDir, "known_findings.json")}
 	if trace {
 		args = append(args, "-trace")
 	}
@@ -608,6 +609,9 @@ func main() {
 				}
 				for k, v := range o.ViolCount {
 					agg.ViolCount[k] += v
+				}
+				for k, v := range o.KnownHits {
+					knownHit[k] += v
 				}
 				if j.from == 0 {
 					agg.Samples = append(o.Samples, agg.Samples...)
